@@ -281,14 +281,20 @@ func TestPropToldOfForeignChanges(t *testing.T) {
 			edgeTargets = append(edgeTargets, [2]string{pID, "grp"})
 		}
 		origins := []string{"", pID, "k1", "sib", "user-x"}
-		sameTimeUsed := false
+		sameTimeUsed, listShrunk := false, false
 		nb := rapid.IntRange(10, 40).Draw(t, "nbatches")
 		var batches []batch
+		// lists are written the way a client's DiffPoints writes them: dense (an entry is
+		// overwritten or appended) and shrunk from the tail by tombstoned points that come in one
+		// batch; decode.go states that deletions spread over several merges need not trim
+		// completely, so only this shape makes "folded = stored" a claim the code makes
+		tagLen := map[string]int{pID: 1}
 		for i := 0; i < nb; i++ {
 			b := batch{origin: rapid.SampledFrom(origins).Draw(t, "origin")}
 			edge := rapid.IntRange(0, 4).Draw(t, "edgeBatch") == 0
 			tickB := tick
 			oneInstant := false
+			tagLenBefore := 0
 			if i > 0 && rapid.IntRange(0, 5).Draw(t, "sameTime") == 0 {
 				tickB = sameAsBefore
 				sameTimeUsed, oneInstant = true, true
@@ -308,13 +314,41 @@ func TestPropToldOfForeignChanges(t *testing.T) {
 				}
 			} else {
 				b.target = rapid.SampledFrom(nodeTargets).Draw(t, "target")
+				tagLenBefore = tagLen[b.target]
+				shrunk, tagged := false, false
 				for k := 0; k < n; k++ {
 					p := data.Point{Type: rapid.SampledFrom([]string{"description", "value", "tag", "m", "other"}).Draw(t, "ptype"), Time: tickB(), Origin: b.origin}
+					if p.Type == "tag" && (oneInstant || shrunk) {
+						p.Type = "description"
+					}
 					switch p.Type {
 					case "tag":
-						p.Key = rapid.SampledFrom([]string{"0", "1", "2", "3"}).Draw(t, "tagKey")
+						L := tagLen[b.target]
+						if L > 0 && !tagged && rapid.IntRange(0, 2).Draw(t, "shrinkList") == 0 {
+							// the last 1-3 entries are deleted, in any key order
+							keys := make([]int, rapid.IntRange(1, min(L, 3)).Draw(t, "shrinkBy"))
+							for i := range keys {
+								keys[i] = L - 1 - i
+							}
+							for _, key := range rapid.Permutation(keys).Draw(t, "shrinkOrder") {
+								b.pts = append(b.pts, data.Point{Type: "tag", Key: fmt.Sprint(key), Tombstone: 1, Time: tickB(), Origin: b.origin})
+							}
+							tagLen[b.target] = L - len(keys)
+							shrunk = true
+							listShrunk = true
+							continue
+						}
+						key := rapid.IntRange(0, min(L, 3)).Draw(t, "tagKey")
+						p.Key = fmt.Sprint(key)
+						if key == L {
+							tagLen[b.target] = L + 1
+						}
+						tagged = true
 					case "m":
 						p.Key = rapid.SampledFrom([]string{"a", "b", ""}).Draw(t, "mKey")
+						if rapid.IntRange(0, 3).Draw(t, "mDeleted") == 0 {
+							p.Tombstone = 1
+						}
 					}
 					p.Text = rapid.SampledFrom([]string{"x", "y", "hello", ""}).Draw(t, "ptext")
 					p.Value = float64(rapid.IntRange(-5, 5).Draw(t, "pvalue"))
@@ -329,6 +363,9 @@ func TestPropToldOfForeignChanges(t *testing.T) {
 			if rapid.IntRange(0, 11).Draw(t, "refusedBatch") == 0 {
 				b.pts[rapid.IntRange(0, len(b.pts)-1).Draw(t, "nanAt")].Value = math.NaN()
 				b.refused = true
+				if !edge {
+					tagLen[b.target] = tagLenBefore
+				}
 			}
 			batches = append(batches, b)
 		}
@@ -478,6 +515,9 @@ func TestPropToldOfForeignChanges(t *testing.T) {
 		cls = append(cls, "clock:"+clockBase)
 		if sameTimeUsed {
 			cls = append(cls, "batchWithTheTimeOfTheOneBefore")
+		}
+		if listShrunk {
+			cls = append(cls, "listShrunkFromTheTail")
 		}
 		sort.Strings(cls)
 		if len(placements) > 1 {
